@@ -275,4 +275,12 @@ def lastClip (k : Nat) : List Step → Option (Rat × Rat) → Option (Rat × Ra
   | .setClip k' cs ce :: rest, acc => lastClip k rest (if k' = k then some (cs, ce) else acc)
   | _ :: rest, acc => lastClip k rest acc
 
+/-- `min` / `max` unfolded the other way round (used by the closing tactic of the regenerated ties when the
+    code writes `b if b <= a else a`) -/
+theorem min_flip (a b : Rat) : min a b = if b ≤ a then b else a := by
+  rw [Rat.min_def]; split <;> split <;> grind
+
+theorem max_flip (a b : Rat) : max a b = if b ≤ a then a else b := by
+  rw [Rat.max_def]; split <;> split <;> grind
+
 end SE.Intervals
